@@ -482,3 +482,13 @@ MUTANTS = [
 ]
 MUTANTS.append(Mutant("connected-stop-never-notifies", MGR, "    STOPPING.upon(connection_lost_follower, enter=STOPPED, outputs=[notify_stopped, send_status_stopped])\n", "", ("C17.R1", "C17.R7")))
 REWRITES = []
+
+# engine A5 / old-peer environment
+MUTANTS.append(Mutant("timer-lost-row-misplaced", MGR, "    idle_traffic.upon(\n        lost_connection,\n        enter=no_connection,\n        outputs=[]\n    )",
+                      "    no_connection.upon(\n        lost_connection,\n        enter=no_connection,\n        outputs=[]\n    )", ("C17.R10", "C17.R6"),
+                      "close() after one silent interval: lost_connection raises in idle_traffic, the Manager stays STOPPING"))
+MUTANTS.append(Mutant("late-dilate-wrong-pending-test", MGR, "            if self._pending_wormhole_versions:\n                self._deliver_versions(self._pending_wormhole_versions)",
+                      "            if self._pending_inbound_dilate_messages:\n                self._deliver_versions(self._pending_wormhole_versions)", ("C17.R4", "C17.R7")))
+MUTANTS.append(Mutant("versions-stripped-for-dilator", "src/wormhole/_boss.py", "        self._their_versions = bytes_to_dict(plaintext)\n        self._D.got_wormhole_versions(self._their_versions)\n        # but this part is app-to-app\n        app_versions = self._their_versions.get(\"app_versions\", {})",
+                      "        their_versions = bytes_to_dict(plaintext)\n        app_versions = their_versions.pop(\"app_versions\", {})\n        self._their_versions = their_versions\n        self._D.got_wormhole_versions(self._their_versions)", "C17.R7",
+                      "an old peer's versions reach the Dilator as an empty (falsy) dict: a late dilate() never forwards them"))
